@@ -56,8 +56,8 @@ def swarm(seed, tier, profile="general"):
     if all(wts[k] == 0 for k in names):
         wts["multiply"] = 5.0
     if profile == "product":
-        wts = {"root": 1.0, "slice": 1.0, "multiply": 9.0, "product": 2.0, "get_density": 1.0, "normalize": 0.5,
-               "obs": 2.0}
+        wts = {"root": 1.0, "slice": 1.0, "multiply": 9.0, "product": 2.0, "get_density": 1.0, "normalize": 1.0,
+               "obs": 2.0, "repeat": 2.0, "update": 0.7}
         for k in ("slice", "product", "get_density", "normalize"):
             if r.coin(0.3):
                 wts[k] = 0.0
